@@ -481,6 +481,38 @@ func TestVerif_C17_Foundation(t *testing.T) {
 				}
 			}
 		}
+		// host candidates published under one mDNS name (the gatherer builds them from the name and then attaches the
+		// interface address): the address of the candidate is the name, so the foundations coincide whatever the
+		// hidden interface addresses are
+		if rapid.IntRange(0, 3).Draw(rt, "mdnsHostPair") == 0 {
+			n := rapid.SampledFrom([]NetworkType{NetworkTypeUDP4, NetworkTypeUDP6, NetworkTypeTCP4, NetworkTypeTCP6}).Draw(rt, "mdnsNet")
+			pool := addrs4
+			if n.IsIPv6() {
+				pool = addrs6
+			}
+			ip1 := rapid.SampledFrom(pool).Draw(rt, "hiddenAddress1")
+			ip2 := rapid.SampledFrom(pool).Draw(rt, "hiddenAddress2")
+			var fs, texts []string
+			for _, ip := range []string{ip1, ip2} {
+				cfg := &CandidateHostConfig{Network: n.NetworkShort(), Address: "8a4e0c1f-6d2b-4f57-9c3a-1b2d3e4f5a6b.local", Port: x.port, Component: 1}
+				if n.IsTCP() {
+					cfg.TCPType = TCPTypePassive
+				}
+				h, err := NewCandidateHost(cfg)
+				if err != nil {
+					rt.Fatalf("harness: %v", err)
+				}
+				if err := h.setIPAddr(netip.MustParseAddr(ip)); err != nil {
+					rt.Fatalf("harness: setIPAddr: %v", err)
+				}
+				fs = append(fs, h.Foundation())
+				texts = append(texts, strings.Fields(h.Marshal())[0])
+			}
+			st.Label(fmt.Sprintf("mdns-host-pair:hidden-addresses-differ:%v", ip1 != ip2))
+			if fs[0] != fs[1] || texts[0] != texts[1] {
+				st.Fail(rt, "C17/foundation/mdns-name-differs-by-hidden-address", "two %s host candidates with the same mDNS name: foundations %s (hidden %s) and %s (hidden %s), first tokens of the text %s / %s", n, fs[0], ip1, fs[1], ip2, texts[0], texts[1])
+			}
+		}
 		cx, cy := mk(rt, x), mk(rt, y)
 		canon := func(s string) string {
 			if a, err := netip.ParseAddr(s); err == nil {
